@@ -305,7 +305,25 @@ func (cx *Ctx) runC15() {
 	cx.phase(fmt.Sprintf("C15: %d schedules over %d specs", len(jobs), nSpecs))
 	// every schedule runs in a fresh worker process: package-level state is cold, and a violation found here
 	// replays exactly (no dependence on what the worker did before)
-	results := cx.simFresh.Run(jobs, nil)
+	// executed in chunks whose results are reduced to what the analysis needs, so that memory stays flat
+	var results []JobResult
+	for a := 0; a < len(jobs); a += 4000 {
+		b := min(a+4000, len(jobs))
+		for _, jr := range cx.simFresh.Run(jobs[a:b], nil) {
+			if jr.Res != nil {
+				for i := range jr.Res.Outcomes {
+					o := &jr.Res.Outcomes[i]
+					o.SiteExec, o.PermKinds, o.Perms, o.Stack = nil, nil, nil, ""
+				}
+				for i := range jr.Res.Solo {
+					o := &jr.Res.Solo[i]
+					o.SiteExec, o.PermKinds, o.Perms, o.Stack = nil, nil, nil, ""
+				}
+			}
+			jr.Stderr = ""
+			results = append(results, jr)
+		}
+	}
 	cx.phase("C15: analysing")
 	cx.slowest(results, 10)
 	fps := map[string]bool{}
@@ -357,6 +375,7 @@ func (cx *Ctx) runC15() {
 			cx.c15Shrink(jr.Job, key, what, fp)
 		}
 	}
+	results = nil
 	// ---- O3: real threads under the race detector (adjunct)
 	cx.phase("C15: real-thread adjunct under the race detector")
 	o3 := cx.c15Real(&r)
@@ -409,7 +428,9 @@ func headInts(x []int, n int) []int {
 func (cx *Ctx) c15Violates(job *spec.Job, key string) (bool, []JobResult) {
 	one := *cx.simFresh // fresh process: cold package-level state, like the run that found it
 	one.N = 1
-	rs := one.Run([]*spec.Job{job}, nil)
+	jj := *job
+	jj.RecordPerms = true // ask for the complete schedule decision list
+	rs := one.Run([]*spec.Job{&jj}, nil)
 	v, k, _, _ := cx.oracleC15(rs)
 	return v && k == key, rs
 }
